@@ -90,3 +90,22 @@ Theorem C01_apply_tab_refines : forall K (O : Ops K) (M : matrix (K:=K)) dims ax
   untab O sh (apply_tab O M dims ax sh l) i = apply O (mat_of O dims M) dims ax (untab O sh l) i.
 Proof. exact @apply_tab_refines. Qed.
 Print Assumptions C01_apply_tab_refines.
+
+(* ---- product states (Sim/KronStateProofs.v): why split_untangled_states may keep independent factors ----
+   An operation whose axes lie in one factor of a product state acts on that factor only; so a run whose operations each
+   lie in one factor is the product of the two separate runs. *)
+From VF Require Import Sim.KronState Sim.KronStateProofs.
+Theorem C01_apply_tprod_first : forall K (O : Ops K), Laws O -> forall U dims ax n1 (p q : tensor (K:=K)),
+  (forall a, In a ax -> a < n1) ->
+  forall i, apply O U dims ax (tprod O n1 p q) i = tprod O n1 (apply O U dims ax p) q i.
+Proof. exact @apply_tprod_first. Qed.
+Print Assumptions C01_apply_tprod_first.
+Theorem C01_apply_tprod_second : forall K (O : Ops K), Laws O -> forall U dims ax n1 (p q : tensor (K:=K)) i,
+  apply O U dims (shift_ax n1 ax) (tprod O n1 p q) i = tprod O n1 p (apply O U dims ax q) i.
+Proof. exact @apply_tprod_second. Qed.
+Print Assumptions C01_apply_tprod_second.
+Theorem C01_run_tprod : forall K (O : Ops K), Laws O -> forall n1 (ops : list (rop (K:=K))),
+  factored n1 ops = true ->
+  forall p q i, run O ops (tprod O n1 p q) i = tprod O n1 (run O (ops_first n1 ops) p) (run O (ops_second n1 ops) q) i.
+Proof. exact @run_tprod. Qed.
+Print Assumptions C01_run_tprod.
